@@ -167,9 +167,47 @@ def run(ctx):
                     cases.append({'tmp': tmp, 'n': n, 'lines': lines, 'chunks': chunks, 'status': statuses[n % len(statuses)],
                                   'extra': EXTRA[n % len(EXTRA)], 'delays': [0 if fast else r.choice([0, 0.03]) for _ in chunks],
                                   'linger': 0 if n % 2 else 0.05, 'want': want, 'session': k})
-        if not ctx.quick:
-            # every exit status at least once
-            pass
+        # the writer schedules of the model (RunMode!ChildWrite: every composition of the 6 abstract bytes of streams A / B),
+        # executed for real: abstract bytes are the two halves of line 1, its newline, the two halves of line 2, its newline
+        res = tlc.run_tlc('RunSchedules.tla', cfg='RunSchedules.cfg', workers=1)
+        comps = json.loads(tlc.printed_tuples(res.stdout, 'SCHEDULES')[0][0])
+        rep.add_tlc(res, 'RunSchedules: the %d writer schedules of a 6-byte stream' % len(comps))
+        g = gen.SessionGen(ctx.seed * 8191 + 999, nconn=(1, 1), nmsg=(2, 2), junk=0.0, core=True, zero_start=0.0)
+        s2 = g.session()
+        s2['events'] = [e for e in s2['events'] if e['in']['e'] == 'msg'][:2]
+        s2['init'] = dict(sessbase.NOFILTER)
+        l1, l2 = stream_of(s2, {'dialect': 'new'})
+        for last_nl in (True, False):
+            pieces = [l1[:len(l1) // 2], l1[len(l1) // 2:], '\n', l2[:len(l2) // 2], l2[len(l2) // 2:]] + (['\n'] if last_nl else [])
+            ref = copy.deepcopy(s2)
+            ref['events'].append({'in': {'e': 'eof'}})
+            e1.run(ref, render={'dialect': 'new'})
+            want2 = norm([key_of(i) for e in ref['events'] for i in e['obs']['items']])
+            for comp in comps:
+                if sum(comp) != len(pieces):
+                    comp = [c for c in comp]
+                    # stream B has 5 abstract bytes: use the compositions of the first 5
+                    tot, cut = 0, []
+                    for c in comp:
+                        if tot + c > len(pieces):
+                            c = len(pieces) - tot
+                        if c > 0:
+                            cut.append(c)
+                        tot += c
+                    comp = cut
+                chunks, pos = [], 0
+                for c in comp:
+                    chunks.append(''.join(pieces[pos:pos + c]))
+                    pos += c
+                if ctx.quick and len(cases) % 2:
+                    pass
+                n = len(cases)
+                cases.append({'tmp': tmp, 'n': n, 'lines': [l1, l2], 'chunks': chunks, 'status': statuses[n % len(statuses)],
+                              'extra': EXTRA[n % len(EXTRA)], 'delays': [0.01 if (n % 3 == 0 and i) else 0 for i in range(len(chunks))],
+                              'linger': 0 if n % 2 else 0.03, 'want': want2, 'session': -1})
+        if ctx.quick:
+            keep = [c for c in cases if c['session'] != -1] + ctx.rnd.sample([c for c in cases if c['session'] == -1], 24)
+            cases = [dict(c, n=i) for i, c in enumerate(keep)]
         with ThreadPoolExecutor(max_workers=12) as ex:
             results = list(ex.map(one_case, cases))
         runs = []
